@@ -28,10 +28,15 @@ InitBuilder == /\ kind \in Kinds /\ items = <<>> /\ buf = "empty" /\ attempted =
                /\ hist = <<>> /\ phase = "open" /\ out = None
 
 (* one-shot constructors: n values of one class each, serialised in one go; expected result stated directly *)
-CtorCases == [c : Ctors \ {"tuple"}, n : 0..3] \cup [c : {"tuple"}, n : 1..MaxArity]
+(* `after`: what the calling thread did just before - nothing, or a one-shot conversion (tuple / Vec / slice / array) whose    *)
+(* Serialize failed after 0 / some / all-but-the-closing bytes.  The constructors are stateless by design: the failed one      *)
+(* reports an error, the measured one is not affected.                                                                        *)
+Afters == {<<>>} \cup {<<c, f>> : c \in {"tuple", "vec", "slice", "array"}, f \in FClass}
+CtorCases == [c : Ctors \ {"tuple"}, n : 0..3, after : Afters] \cup [c : {"tuple"}, n : 1..MaxArity, after : {<<>>}]
+             \cup [c : {"tuple"}, n : 1..3, after : Afters]
 InitCtor == /\ kind = "ctor" /\ buf = "clean" /\ attempted = FALSE /\ phase = "built"
             /\ \E cc \in CtorCases :
-                 /\ hist = <<[op |-> "ctor", c |-> cc.c, n |-> cc.n]>>
+                 /\ hist = <<[op |-> "ctor", c |-> cc.c, n |-> cc.n, after |-> cc.after]>>
                  /\ items = [i \in 1..cc.n |-> "scalar"]
                  /\ out = CASE cc.c = "macro" /\ cc.n = 0 -> None                  \* rpc_params![] = empty builder
                             [] cc.c = "batch" /\ cc.n = 0 -> [k |-> "emptybatch"]  \* EmptyBatchRequest
